@@ -86,35 +86,37 @@ Definition stopped (e : exec) : bool := match e with XStopped => true | _ => fal
 
 (* the executor a Then(f) without executor argument will use (base_core.hpp TransferExecutorTo: a core without its
    own executor takes its caller's) *)
-Fixpoint cur_exec (p : pipe) : exec :=
+(* Task::ToFuture(e) / Start(head, e) (task_impl.cpp:6-10) replaces the executor of the HEAD of the lazy chain: [ov] is
+   that replacement, seen by the source and by every step that inherits from it *)
+Definition over (ov : option exec) (e : exec) : exec := match ov with Some e' => e' | None => e end.
+
+Fixpoint cur_exec (ov : option exec) (p : pipe) : exec :=
   match p with
-  | PReady _ _ _ => XInline
-  | PContract _ _ e _ _ => e
-  | PRun _ e _ => e
-  | PProm _ _ e _ _ _ => e
-  | PCoro _ _ _ _ _ => XInline
+  | PReady _ _ _ => over ov XInline
+  | PContract _ _ e _ _ => over ov e
+  | PRun _ e _ => over ov e
+  | PProm _ _ e _ _ _ => over ov e
+  | PCoro _ _ _ _ _ => over ov XInline
   | PThen q (AOn e) _ => e
-  | PThen q _ _ => cur_exec q
-  | PDetach q _ _ => cur_exec q
-  | PDetach0 q => cur_exec q
-  | PStartOn q e => e
-  | PToFuture q => cur_exec q
-  | POnNull q => cur_exec q
-  | PSplit q => cur_exec q
+  | PThen q _ _ => cur_exec ov q
+  | PDetach q _ _ => cur_exec ov q
+  | PDetach0 q => cur_exec ov q
+  | PStartOn q e => cur_exec (Some e) q
+  | PToFuture q => cur_exec ov q
+  | POnNull q => cur_exec ov q
+  | PSplit q => cur_exec ov q
   | PShare q (Some e) => e
-  | PShare q None => cur_exec q
+  | PShare q None => cur_exec ov q
   end.
 
-(* programs outside the part of executor semantics modelled here (re-targeting a whole lazy chain to a stopped
-   executor changes what the *earlier* steps see): the generator avoids them and the checker asserts wf *)
+(* well-formedness hook for programs outside the modelled executor semantics (none at present: always true) *)
 Fixpoint wf (p : pipe) : bool :=
   match p with
   | PReady _ _ _ | PContract _ _ _ _ _ | PProm _ _ _ _ _ _ => true
   | PRun _ _ f => wf_fn f
   | PCoro _ _ _ ps _ => wf_pipes ps
   | PThen q _ f | PDetach q _ f => wf q && wf_fn f
-  | PStartOn q e => wf q && negb (stopped e)
-  | PDetach0 q | PToFuture q | POnNull q | PSplit q | PShare q _ => wf q
+  | PStartOn q _ | PDetach0 q | PToFuture q | POnNull q | PSplit q | PShare q _ => wf q
   end
 with wf_fn (f : fn) : bool :=
   match f with Fn _ _ _ b => match b with BAsync p => wf p | _ => true end end
@@ -133,44 +135,44 @@ Definition invoked (par : pclass) (s : res) : bool :=
   | _, _ => false
   end.
 
-Fixpoint eval (p : pipe) : out :=
+Fixpoint eval (ov : option exec) (p : pipe) : out :=
   match p with
   | PReady _ _ r => mkOut [KReady] 0 r
   | PContract _ _ _ _ r => mkOut [KContract] 0 r
   | PRun _ e f =>
-      let o := eval_fn f (if stopped e then RErr else RVal) in
+      let o := eval_fn f (if stopped (over ov e) then RErr else RVal) in
       mkOut (KRun :: sites o) (calls o) (st o)
   | PProm _ _ e _ r throws =>
       (* promise_core.hpp: Call() hands the promise to the function; Drop() stores StopTag without calling it *)
-      if stopped e then mkOut [KProm] 0 RErr
+      if stopped (over ov e) then mkOut [KProm] 0 RErr
       else mkOut [KProm] 1 (if throws then RExc else r)
   | PCoro _ _ m ps r =>
       let o := eval_pipes m ps in
       mkOut (KCoro :: sites o) (calls o) (match st o with RVal => r | _ => RExc end)
   | PThen q a f =>
-      let o := eval q in
+      let o := eval ov q in
       let s_in := match a with
                   | AInline => st o
                   | AOn e => if stopped e then RErr else st o
-                  | AInherit => if stopped (cur_exec q) then RErr else st o
+                  | AInherit => if stopped (cur_exec ov q) then RErr else st o
                   end in
       let g := eval_fn f s_in in
       mkOut (sites o ++ KThen :: sites g) (calls o + calls g) (st g)
   | PDetach q a f =>
-      let o := eval q in
+      let o := eval ov q in
       let s_in := match a with
                   | AInline => st o
                   | AOn e => if stopped e then RErr else st o
-                  | AInherit => if stopped (cur_exec q) then RErr else st o
+                  | AInherit => if stopped (cur_exec ov q) then RErr else st o
                   end in
       let g := eval_fn f s_in in
       mkOut (sites o ++ KDetach :: sites g) (calls o + calls g) (st g)
-  | PDetach0 q => let o := eval q in mkOut (sites o ++ [KDetach0]) (calls o) (st o)
-  | PStartOn q _ => let o := eval q in mkOut (sites o ++ [KConv]) (calls o) (st o)
-  | PToFuture q => let o := eval q in mkOut (sites o ++ [KConv]) (calls o) (st o)
-  | POnNull q => let o := eval q in mkOut (sites o ++ [KConv]) (calls o) (st o)
-  | PSplit q => let o := eval q in mkOut (sites o ++ [KSplit]) (calls o) (st o)
-  | PShare q _ => let o := eval q in mkOut (sites o ++ [KShare]) (calls o) (st o)
+  | PDetach0 q => let o := eval ov q in mkOut (sites o ++ [KDetach0]) (calls o) (st o)
+  | PStartOn q e => let o := eval (Some e) q in mkOut (sites o ++ [KConv]) (calls o) (st o)
+  | PToFuture q => let o := eval ov q in mkOut (sites o ++ [KConv]) (calls o) (st o)
+  | POnNull q => let o := eval ov q in mkOut (sites o ++ [KConv]) (calls o) (st o)
+  | PSplit q => let o := eval ov q in mkOut (sites o ++ [KSplit]) (calls o) (st o)
+  | PShare q _ => let o := eval ov q in mkOut (sites o ++ [KShare]) (calls o) (st o)
   end
 with eval_fn (f : fn) (s : res) : out :=
   match f with
@@ -182,7 +184,7 @@ with eval_fn (f : fn) (s : res) : out :=
         | BResVal => mkOut [] 1 RVal
         | BResErr => mkOut [] 1 RErr
         | BResExc => mkOut [] 1 RExc
-        | BAsync p => let o := eval p in mkOut (sites o) (S (calls o)) (st o)   (* unwrapping: no extra block *)
+        | BAsync p => let o := eval None p in mkOut (sites o) (S (calls o)) (st o)   (* unwrapping: no extra block *)
         end
       else mkOut [] 0 s
   end
@@ -191,7 +193,7 @@ with eval_pipes (m : amode) (ps : pipes) : out :=
   match ps with
   | PNil => mkOut [] 0 RVal
   | PCons p r =>
-      let o := eval p in
+      let o := eval None p in
       match m, st o with
       | MCoAwait, (RErr | RExc) => mkOut (sites o) (calls o) RExc     (* await_resume: Ok() throws; the rest is not built *)
       | _, _ => let t := eval_pipes m r in mkOut (sites o ++ sites t) (calls o + calls t) (st t)
@@ -201,9 +203,10 @@ with eval_pipes (m : amode) (ps : pipes) : out :=
 Definition blocks (l : list skind) : nat := fold_right (fun k a => site_blocks k + a) 0 l.
 Definition nsteps (l : list skind) : nat := length (filter is_step l).
 
-Definition allocs_pipeline (p : pipe) : nat := blocks (sites (eval p)).
+Definition run (p : pipe) : out := eval None p.
+Definition allocs_pipeline (p : pipe) : nat := blocks (sites (run p)).
 (* steps actually executed: the source, every attached step, and those of every inner pipeline that was built *)
-Definition steps (p : pipe) : nat := nsteps (sites (eval p)).
+Definition steps (p : pipe) : nat := nsteps (sites (run p)).
 
 (* steps written in the program text, executed or not *)
 Fixpoint steps_syn (p : pipe) : nat :=
@@ -275,7 +278,9 @@ Definition when_allocs (k : ckind) (pol : policy) (f : form) (ik : ikind) (vs : 
       match k, f, ik, n' with
       | CAny, FIter, IUnique, 0 => (0, 0)                  (* when_any.hpp:27-33: the input itself is returned *)
       | _, _, _, _ =>
-          let s := strategy_of k pol vs in
+          (* VsMixed: input i is a future of int for even i, of void for odd i — a single input is not mixed *)
+          let vs' := match vs, n' with VsMixed, 0 => VsInt | _, _ => vs end in
+          let s := strategy_of k pol vs' in
           let build := contract_blocks + 1 (* MakeShared<FinalCombinator>, when.hpp:337,361 *)
                        + strategy_build s + callbacks_vector f ik in
           let total := build + strategy_done s pol oc in
